@@ -93,7 +93,7 @@ class C06(Prop):
             for l in pre["order"]:
                 want = longest_prefix(P.we, l)[1]
                 try:
-                    g = case.call("retrieve_prefix", case.t.retrieve_prefix, l)
+                    g = case.call_may_refuse("retrieve_prefix", case.t.retrieve_prefix, l)
                     g = bytes(g)
                 except TraphException:
                     g = None
